@@ -1,5 +1,6 @@
 import Driver.B64
 import Driver.Rng
+import Driver.Totp
 /-
 Line protocol driver: `<suite> <op> <args…>` per input line, one result line out.
 Compiled (`lean_exe modeldrv`); nothing imported here touches Mathlib.
@@ -8,6 +9,7 @@ def dispatch (line : String) : String :=
   match (line.trimAscii.toString.splitOn " ").filter (· ≠ "") with
   | "b64" :: rest => Driver.B64.handle rest
   | "rng" :: rest => Driver.Rng.handle rest
+  | "totp" :: rest => Driver.Totp.handle rest
   | _ => Driver.bad
 
 partial def loop (h : IO.FS.Stream) (out : IO.FS.Stream) : IO Unit := do
